@@ -285,6 +285,34 @@ impl Resolver for NoResolver {
 }
 
 pub fn static_data(data: &DataSpec, slice: Option<(usize, usize)>, settings: &SoundSettingsSpec, r: &dyn Resolver) -> StaticSoundData {
+	apply_slice(static_data_unsliced(data, settings, r), slice)
+}
+
+/// The slice is made the way a caller makes it, through `slice()`; one that runs to the end of the
+/// audio is written with an open end, and on top of an earlier, shorter slice (slicing always refers
+/// to the whole audio).
+pub fn apply_slice(whole: StaticSoundData, slice: Option<(usize, usize)>) -> StaticSoundData {
+	use kira::sound::{EndPosition, PlaybackPosition, Region};
+	let n = whole.frames.len();
+	match slice {
+		None => whole,
+		Some((a, b)) if b == n && a <= n => whole
+			.slice(Region {
+				start: PlaybackPosition::Samples(0),
+				end: EndPosition::Custom(PlaybackPosition::Samples((a + 1).min(n))),
+			})
+			.slice(Region {
+				start: PlaybackPosition::Samples(a),
+				end: EndPosition::EndOfAudio,
+			}),
+		Some((a, b)) => whole.slice(Region {
+			start: PlaybackPosition::Samples(a),
+			end: EndPosition::Custom(PlaybackPosition::Samples(b)),
+		}),
+	}
+}
+
+fn static_data_unsliced(data: &DataSpec, settings: &SoundSettingsSpec, r: &dyn Resolver) -> StaticSoundData {
 	StaticSoundData {
 		sample_rate: data.sample_rate,
 		frames: data.frames().into(),
@@ -298,7 +326,7 @@ pub fn static_data(data: &DataSpec, slice: Option<(usize, usize)>, settings: &So
 			panning: settings.panning.k(r),
 			fade_in_tween: settings.fade_in.map(|t| t.k(r)),
 		},
-		slice,
+		slice: None,
 	}
 }
 
